@@ -395,6 +395,9 @@ func vm_flateNewReader(r io.Reader) io.ReadCloser { return &vmFlateReader{r} }
 //verif:intrinsic
 func vFSNoDir(name string) {}
 
+//verif:intrinsic
+func vResetStdio(stdin []byte) {}
+
 // vIsModel: true under the symbolic engine (environment stubs in force), false natively.
 //
 //verif:intrinsic
